@@ -10,6 +10,7 @@ import (
 
 	"github.com/johannesboyne/gofakes3"
 	"github.com/johannesboyne/gofakes3/internal/s3io"
+	"github.com/johannesboyne/gofakes3/internal/verifhook"
 	bolt "go.etcd.io/bbolt"
 	"gopkg.in/mgo.v2/bson"
 )
@@ -350,11 +351,13 @@ func (db *Backend) PutObject(
 	if err != nil {
 		return result, err
 	}
+	verifhook.Gate("s3bolt.PutObject.afterRead")
 
 	err = gofakes3.MergeMetadata(db, bucketName, objectName, meta)
 	if err != nil {
 		return result, err
 	}
+	verifhook.Gate("s3bolt.PutObject.afterMerge")
 
 	mod := db.timeSource.Now()
 	hash := md5.Sum(bts)
